@@ -43,10 +43,20 @@ pub(crate) fn range_with_prefix<'a>(
     };
     let end = match end {
         Some(e) => Some(concat(namespace, e)),
-        // a namespace without successor (empty or all bytes 255) is bounded only by the end of the storage
-        None if namespace.iter().all(|b| *b == 255) => None,
-        // end is updating last byte by one
-        None => Some(namespace_upper_bound(namespace)),
+        None => {
+            let trailing = namespace.iter().rev().take_while(|b| **b == 255).count();
+            if trailing == namespace.len() {
+                // a namespace without successor (empty or all bytes 255)
+                // is bounded only by the end of the storage
+                None
+            } else {
+                // end is updating last byte by one; the zeroed trailing bytes are cut off,
+                // otherwise shorter foreign keys right above the namespace would be included
+                let mut bound = namespace_upper_bound(namespace);
+                bound.truncate(namespace.len() - trailing);
+                Some(bound)
+            }
+        }
     };
 
     // get iterator from storage
